@@ -382,6 +382,9 @@ Proof.
   intro l. unfold regions_of_info_src, regions_of_info. apply map_ext. intros [[a b] p]. apply region_of_info_src_refines.
 Qed.
 
+Lemma regions_of_maps_src_refines : forall l, regions_of_maps_src l = regions_of_maps l.
+Proof. reflexivity. Qed.
+
 (* ---- the whole path from the raw records *)
 Section Dump.
   Variable analysis : pcontext -> option op_analysis.
@@ -473,7 +476,7 @@ Theorem the_property_maps_src : forall analysis arch platform_id e pc l,
   let os := os_class (dump_os platform_id) in
   let r := dump_reason arch platform_id e in
   let address := dump_address arch platform_id e in
-  let flips := dump_pipeline_src analysis arch platform_id e pc (regions_of_maps l) in
+  let flips := dump_pipeline_src analysis arch platform_id e pc (regions_of_maps_src l) in
   (forall f, In f flips ->
      exists a j, examined_by analysis c os r address pc f a /\
                  inaccessible (regions_of_maps l) (memop_of_reason r) a /\
@@ -486,5 +489,5 @@ Theorem the_property_maps_src : forall analysis arch platform_id e pc l,
   (~ (arch = 9 \/ arch = 32770 \/ arch = 32772) -> flips = []).
 Proof.
   intros analysis arch platform_id e pc l H1. cbv zeta.
-  rewrite dump_pipeline_src_refines. exact (the_property_maps analysis arch platform_id e pc l H1).
+  rewrite regions_of_maps_src_refines, dump_pipeline_src_refines. exact (the_property_maps analysis arch platform_id e pc l H1).
 Qed.
